@@ -1453,3 +1453,81 @@ Proof.
                         t beta Htk Htd Hkc HbL Hbeta) as [_ E].
     etransitivity; [exact E|]. rewrite (map_nth_lt _ Xt t [] 0 Ht). f_equal. f_equal. tR. lra.
 Qed.
+
+(* ---- K(X,X) + noise I is square and symmetric ------------------------------------------------------ *)
+Lemma add_diag_row_length (row : rvec) (s : R) m :
+  length (firstn m row ++ match skipn m row with [] => [] | d :: r => (d + s) :: r end) = length row.
+Proof.
+  rewrite app_length, firstn_length. pose proof (skipn_length m row) as H.
+  destruct (skipn m row) as [|d r]; simpl in *; lia.
+Qed.
+
+Lemma add_diag_from_shape (K : rmat) (s : R) : forall k,
+  length (add_diag_from NumR k K s) = length K /\
+  forall n, Forall (fun r => length r = n) K -> Forall (fun r => length r = n) (add_diag_from NumR k K s).
+Proof.
+  induction K as [|row K IH]; intros k; simpl; [split; [reflexivity | intros; constructor]|].
+  destruct (IH (S k)) as [Hl HF]. split; [rewrite Hl; reflexivity|].
+  intros n H. inversion H; subst. constructor; [apply add_diag_row_length | apply HF; assumption].
+Qed.
+
+Lemma gp_sysmat_wf (jit : R) (p : gparams NumR) (d : gdata NumR) :
+  let A := gp_sysmat NumR jit p d in
+  length A = length (gd_X NumR d) /\ Square A /\ Symmetric A.
+Proof.
+  cbv zeta. unfold gp_sysmat, add_diag.
+  set (X := gd_X NumR d). set (K := kernel_matrix NumR (gp_ib NumR p) (gp_cs NumR p) jit X X).
+  assert (HK : length K = length X) by apply gp_kernel_matrix_length.
+  assert (HKr : Forall (fun r : rvec => length r = length X) K).
+  { apply Forall_forall. intros r Hr. unfold K, kernel_matrix in Hr. apply in_map_iff in Hr as [a [<- _]].
+    apply map_length. }
+  destruct (add_diag_from_shape K (gp_noise NumR p) 0) as [Hl HF].
+  tR. assert (HlA : length (add_diag_from NumR 0 K (gp_noise NumR p)) = length X) by (transitivity (length K); [exact Hl | exact HK]).
+  split; [exact HlA|]. split.
+  - unfold Square. tR. eapply Forall_impl; [|apply (HF (length X) HKr)]. intros r Hr. cbv beta in *. rewrite Hr. symmetry. exact HlA.
+  - assert (Hent : forall i j, (i < length X)%nat -> (j < length X)%nat ->
+              entry K i j = matern52 NumR (gp_ib NumR p) (gp_cs NumR p) jit (nth i X []) (nth j X [])).
+    { intros i j Hi Hj. unfold entry, K, kernel_matrix.
+      rewrite (map_nth_lt _ X i [] [] Hi). rewrite (map_nth_lt _ X j [] 0 Hj). reflexivity. }
+    assert (Hrow : forall i, (i < length X)%nat -> length (nth i K []) = length X).
+    { intros i Hi. rewrite Forall_forall in HKr. apply HKr. apply nth_In. lia. }
+    assert (Hout : forall i j, (length X <= i)%nat \/ (length X <= j)%nat ->
+              entry (add_diag_from NumR 0 K (gp_noise NumR p)) i j = 0).
+    { intros i j [Hi|Hj]; unfold entry.
+      - rewrite (nth_overflow _ [] ) by (tR; rewrite HlA; exact Hi). destruct j; reflexivity.
+      - destruct (Nat.lt_ge_cases i (length X)) as [Hi|Hi].
+        + apply nth_overflow. assert (Hin : In (nth i (add_diag_from NumR 0 K (gp_noise NumR p)) []) (add_diag_from NumR 0 K (gp_noise NumR p)))
+            by (apply nth_In; tR; rewrite HlA; exact Hi).
+          specialize (HF (length X) HKr). rewrite Forall_forall in HF. pose proof (HF _ Hin) as E. cbv beta in E. tR. lia.
+        + rewrite (nth_overflow _ []) by (tR; rewrite HlA; exact Hi). destruct j; reflexivity. }
+    intros i j.
+    destruct (Nat.lt_ge_cases i (length X)) as [Hi|Hi]; [|rewrite !Hout by (auto); reflexivity].
+    destruct (Nat.lt_ge_cases j (length X)) as [Hj|Hj]; [|rewrite !Hout by (auto); reflexivity].
+    fold (add_diag NumR K (gp_noise NumR p)).
+    rewrite !add_diag_entry by (rewrite ?Hrow by assumption; lia).
+    rewrite !Hent by assumption. rewrite (matern52_sym _ _ _ (nth i X []) (nth j X [])).
+    destruct (Nat.eqb_spec j i) as [->|Hne].
+    + rewrite Nat.eqb_refl. reflexivity.
+    + destruct (Nat.eqb_spec i j) as [E|_]; [subst; contradiction|reflexivity].
+Qed.
+
+Lemma gpredict_dense_wf (jit floor : R) (m : gmodel NumR) (d : gdata NumR) (L : rmat) (P : list rvec) (Xt : list rvec) :
+  gm_state NumR m = Some (d, (L, P)) -> Fresh NumR jit m ->
+  let p := gm_params NumR m in
+  let A := gp_sysmat NumR jit p d in
+  chol_ok A [] -> length (gd_y NumR d) = length (gd_X NumR d) ->
+  forall means vars, gpredict NumR jit floor m Xt = Some (means, vars) ->
+  forall t (alpha beta : rvec), (t < length Xt)%nat ->
+    length alpha = length (gd_X NumR d) -> length beta = length (gd_X NumR d) ->
+    mvR A alpha = vsub NumR (gd_y NumR d) (map (fun _ => gp_mean NumR p) (gd_X NumR d)) ->
+    mvR A beta = nth t (gp_kcols NumR jit p d Xt) [] ->
+    mean_entry means t 0 = gp_mean NumR p + dotR (nth t (gp_kcols NumR jit p d Xt) []) alpha /\
+    nth t vars 0 = Rmax (gp_cs NumR p - dotR (nth t (gp_kcols NumR jit p d Xt) []) beta) floor.
+Proof.
+  intros Hst Hfresh p A Hok Hy means vars Hpred t alpha beta Ht Ha Hb Halpha Hbeta.
+  destruct (gp_sysmat_wf jit p d) as [HlA [Hsq Hsym]]. fold A in HlA, Hsq, Hsym.
+  assert (Ha' : length alpha = length A) by (tR; rewrite HlA; exact Ha).
+  assert (Hb' : length beta = length A) by (tR; rewrite HlA; exact Hb).
+  exact (gpredict_dense jit floor m d L P Xt Hst Hfresh Hsq Hsym Hok Hy HlA means vars Hpred t alpha beta Ht
+                        Ha' Hb' Halpha Hbeta).
+Qed.
